@@ -101,15 +101,38 @@ class Program:
             for m in n.get("inner", []):
                 self._index(m, name)
             return
+        if k == "FunctionTemplateDecl":
+            # index the instantiations only (the dependent pattern has no TemplateArgument children)
+            for c in n.get("inner", []):
+                if c.get("kind") == "FunctionDecl" and any(x.get("kind") == "TemplateArgument" for x in c.get("inner", [])):
+                    self._index(c, cls)
+            return
         if k == "FunctionDecl" and any(x.get("kind") == "CompoundStmt" for x in n.get("inner", [])):
             self.functions.setdefault(n["name"], []).append(n)
             self.stats["functions"] += 1
+            self._number_loops(n)
+        if k == "CXXMethodDecl":
+            self._number_loops(n)
         if k == "VarDecl" and cls is None and n.get("name", "").startswith("global_"):
             self.globals[n["name"]] = n
         if k in ("ForStmt", "WhileStmt"):
             self.stats["loops"] += 1
         for c in n.get("inner", []):
             self._index(c, cls)
+
+    def _number_loops(self, fn):
+        """loops of a function are numbered in source order (keys of the sidecar loop invariants)"""
+        cnt = [0]
+
+        def walk(n):
+            if not isinstance(n, dict):
+                return
+            if n.get("kind") in ("ForStmt", "WhileStmt"):
+                cnt[0] += 1
+                n["_loop_ord"] = cnt[0]
+            for c in n.get("inner", []):
+                walk(c)
+        walk(fn)
 
     # ------------------------------------------------------------------
     def method(self, cls, name):
